@@ -37,4 +37,17 @@ def sliceTerm (f : Files) (i : TermInfo) : TermBytes :=
     postings := (f.postings.drop i.postStart).take (i.postEnd - i.postStart),
     positions := (f.positions.drop i.posStart).take (i.posEnd - i.posStart) }
 
+/-- `serialize_postings` for one field: the terms of the table in byte order, each serialized
+through `new_term … close_term` (an absent term cannot occur; it would be written empty)
+
+-- mirrors: src/postings/postings_writer.rs::serialize_postings -/
+def segmentTerms (o : Invert.RecOpt) (c : Invert.Corpus) : List TermBytes :=
+  (Invert.termsOf Gen.Postings.POSITION_GAP c).map (fun t =>
+    match (Recorder.indexCorpus o c).table t with
+    | some r => Recorder.serializeTerm o r
+    | none => { docFreq := 0, postings := [], positions := [] })
+
+/-- the field's `.idx` / `.pos` files and TermInfos -/
+def segmentFiles (o : Invert.RecOpt) (c : Invert.Corpus) : Files := writeTerms (segmentTerms o c)
+
 end TantivyModel.FieldSerializer
